@@ -221,6 +221,7 @@ func (a *batchConn) batchSendLoop(cfg config.TiKVClient) {
 		if a.reqBuilder.len() == 0 {
 			// the conn is closed or recycled.
 			a.inspectPendingRequests(headRecvTime)
+			a.failQueuedAsyncRequestsOnClose()
 			return
 		}
 
@@ -260,6 +261,26 @@ func (a *batchConn) batchSendLoop(cfg config.TiKVClient) {
 		if sendLoopEndTime.Sub(lastPendingInspectAt) >= batchRequestInspectInterval {
 			a.inspectPendingRequests(sendLoopEndTime)
 			lastPendingInspectAt = sendLoopEndTime
+		}
+	}
+}
+
+// failQueuedAsyncRequestsOnClose fails the async requests that are still queued when the send loop exits because
+// the conn is closed. Nobody will send them, and unlike the sync callers they don't wait for the closed signal.
+func (a *batchConn) failQueuedAsyncRequestsOnClose() {
+	select {
+	case <-a.closed:
+	default:
+		return
+	}
+	for {
+		select {
+		case entry := <-a.batchCommandsCh:
+			if entry != nil && entry.async() {
+				entry.error(errors.New("batchConn closed"))
+			}
+		default:
+			return
 		}
 	}
 }
